@@ -331,6 +331,14 @@ pub fn catalogue(w: &World, tier: &str, seed: u64, reps: usize) -> Vec<FaultCase
                     add(&format!("tap:{site}"), None, None, What::Drop, format!("tap:{site}:{iname}"), s, Some((site.to_string(), ix)));
                 }
             }
+            // the same lies, and the last vector of the message that carries the lie (in every known format the
+            // MACs that would expose it) is emptied or shortened - schema-free, so it still applies when the
+            // layout of the message changes
+            for (site, label) in [("dvalue.own", "dvalue"), ("beaver.own_de", "faand")] {
+                for (bm, bname) in [(crate::adv::ByteMut::TailVecEmpty, "last-vector-emptied"), (crate::adv::ByteMut::TailVecMinus1, "last-vector-minus-1")] {
+                    add(label, None, None, What::Bytes(bm), format!("tap:{site}:all+{bname}"), s, Some((site.to_string(), usize::MAX)));
+                }
+            }
             // rushing reflection: the corrupted party waits for the victim's commitment / opening and sends
             // a copy back (combined with an actual cheat where the check would otherwise be vacuous)
             for victim in &honest {
